@@ -3,5 +3,9 @@ import props_solver as ps
 
 CHECKS = {
     "C01": ps.check_C01,
+    "C02": ps.check_C02,
+    "C03": ps.check_C03,
+    "C04": ps.check_C04,
     "C05": ps.check_C05,
+    "C06": ps.check_C06,
 }
